@@ -209,8 +209,9 @@ def load (globals : List (Str × Str)) (items : List Item) : List Item :=
 /-! ### per-element blocks -/
 
 def nameTags (name : Str) : List (Str × Str) :=
-  [ (Engine.T "STATENAME", name), (Engine.T "stateName", camelSmall name), (Engine.T "STATE_NAME", snakeCase name),
-    (Engine.T "EVENTNAME", name), (Engine.T "eventName", camelSmall name), (Engine.T "EVENT_NAME", snakeCase name),
+  [ (Engine.T "stateName", camelSmall name), (Engine.T "STATENAME", name),
+    (Engine.T "eventName", camelSmall name), (Engine.T "STATE_NAME", snakeCase name),
+    (Engine.T "EVENTNAME", name), (Engine.T "EVENT_NAME", snakeCase name),
     (Engine.T "ACTIONNAME", name), (Engine.T "actionName", camelSmall name), (Engine.T "ACTION_NAME", snakeCase name),
     (Engine.T "GUARDNAME", name), (Engine.T "guardName", camelSmall name), (Engine.T "GUARD_NAME", snakeCase name) ]
 
